@@ -7,8 +7,10 @@ Only *definite* mismatches are reported: two known, different systems combined; 
 different one.  Path facts `x.units.dim == y.units.dim` (or != with a raising body) identify dimension symbols.
 """
 import ast
+from fractions import Fraction
 
 from . import pyfe
+from .poly import Rat
 
 
 class D:
@@ -37,8 +39,11 @@ class D:
 
 
 class V:
-    def __init__(self, kind, sys=None, dim=None, cls=None, extra=None):
-        self.kind, self.sys, self.dim, self.cls, self.extra = kind, sys, dim, cls, extra
+    """num: the magnitude as a rational function of the operands' magnitudes (a = self, b = the other operand,
+    both expressed in one unit system -- which systems are involved is tracked separately by `sys`), or None"""
+
+    def __init__(self, kind, sys=None, dim=None, cls=None, extra=None, num=None):
+        self.kind, self.sys, self.dim, self.cls, self.extra, self.num = kind, sys, dim, cls, extra, num
 
     def __repr__(self):
         if self.kind in ("Q", "N", "U"):
@@ -104,7 +109,9 @@ class Interp:
     # ------------------------------------------------------------------------------------------ expressions
     def ev(self, n, env, cx):
         if isinstance(n, ast.Constant):
-            return NUM if isinstance(n.value, (int, float)) and not isinstance(n.value, bool) else V("CONST", extra=n.value)
+            if isinstance(n.value, (int, float)) and not isinstance(n.value, bool):
+                return V("NUM", num=Rat.const(Fraction(repr(n.value)) if isinstance(n.value, float) else n.value))
+            return V("CONST", extra=n.value)
         if isinstance(n, ast.Name):
             return env.get(n.id, UNK)
         if isinstance(n, ast.Attribute):
@@ -113,7 +120,7 @@ class Interp:
                 if n.attr == "units":
                     return V("U", b.sys, b.dim)
                 if n.attr == "value":
-                    return V("N", b.sys, b.dim, extra="array" if b.cls == "UnitArray" else None)
+                    return V("N", b.sys, b.dim, extra="array" if b.cls == "UnitArray" else None, num=b.num)
                 return UNK
             if b.kind == "U":
                 if n.attr == "sys":
@@ -124,7 +131,7 @@ class Interp:
         if isinstance(n, ast.Subscript):
             b = self.ev(n.value, env, cx)
             if b.kind == "N":
-                return V("N", b.sys, b.dim)
+                return V("N", b.sys, b.dim, num=b.num)
             return UNK
         if isinstance(n, ast.UnaryOp):
             o = self.ev(n.operand, env, cx)
@@ -132,6 +139,8 @@ class Interp:
                 return self.call_method(o, "__neg__", [], cx)
             if isinstance(n.op, ast.Not):
                 return BOOL
+            if isinstance(n.op, ast.USub) and o.kind in ("N", "NUM"):
+                return V(o.kind, o.sys, o.dim, o.cls, o.extra, num=(-o.num if o.num is not None else None))
             return o
         if isinstance(n, ast.BinOp):
             l, r = self.ev(n.left, env, cx), self.ev(n.right, env, cx)
@@ -144,7 +153,7 @@ class Interp:
                         e2[t.id] = NUM
             el = self.ev(n.elt, e2, cx)
             if el.kind == "N":
-                return V("N", el.sys, el.dim, extra="array")
+                return V("N", el.sys, el.dim, extra="array", num=el.num)
             return el
         if isinstance(n, ast.Call):
             return self.call(n, env, cx)
@@ -158,6 +167,8 @@ class Interp:
                 if not cx.dimeq(l.dim, r.dim):
                     cx.problems.append((n.lineno, "comparison across dimensions %s vs %s without a dimension check"
                                         % (l.dim, r.dim)))
+            if len(n.ops) == 1 and l.num is not None and r.num is not None:
+                return V("BOOL", extra=(type(n.ops[0]).__name__, l.num, r.num))
             return BOOL
         if isinstance(n, ast.BoolOp):
             for v in n.values:
@@ -177,8 +188,31 @@ class Interp:
             if r.kind == "Q" and rname:
                 return self.call_method(r, rname, [l], cx)
             return UNK
+        num = None
+        if l.num is not None and r.num is not None:
+            try:
+                if op is ast.Add:
+                    num = l.num + r.num
+                elif op is ast.Sub:
+                    num = l.num - r.num
+                elif op is ast.Mult:
+                    num = l.num * r.num
+                elif op is ast.Div:
+                    num = l.num / r.num
+                elif op is ast.Mod:
+                    num = Rat.sym("mod(%r,%r)" % (l.num, r.num))
+                elif op is ast.Pow:
+                    num = Rat.sym("pow(%r,%r)" % (l.num, r.num))
+            except Exception:
+                num = None
+        res = self._arith(op, l, r, cx, n)
+        if res is not None and res.kind in ("N", "NUM"):
+            res = V(res.kind, res.sys, res.dim, res.cls, res.extra, num=num)
+        return res if res is not None else UNK
+
+    def _arith(self, op, l, r, cx, n):
         if l.kind == "NUM" and r.kind == "NUM":
-            return NUM
+            return V("NUM")
         if op in (ast.Add, ast.Sub, ast.Mod):
             if l.kind == "N" and r.kind == "N":
                 if l.sys != r.sys and l.sys and r.sys:
@@ -220,7 +254,7 @@ class Interp:
                 cx.problems.append((line, "a number expressed in %s is wrapped with units of %s" % (val.sys, units.sys)))
             if not cx.dimeq(val.dim, units.dim):
                 cx.problems.append((line, "a number of dimension %s is wrapped with dimension %s" % (val.dim, units.dim)))
-        return V("Q", units.sys, units.dim, cls)
+        return V("Q", units.sys, units.dim, cls, num=val.num if val.kind in ("N", "NUM") else None)
 
     def call(self, n, env, cx):
         f = n.func
@@ -232,9 +266,11 @@ class Interp:
                 s, d = (args + [UNK, UNK])[:2]
                 return V("U", s.sys if s.kind == "SYS" else None, d.dim if d.kind == "DIM" else None)
             if f.id in ("len", "range", "int", "float"):
-                return NUM
+                return V("NUM")
             if f.id == "abs":
-                return args[0] if args else NUM
+                a = args[0] if args else V("NUM")
+                return V(a.kind, a.sys, a.dim, a.cls, a.extra,
+                         num=Rat.sym("abs(%r)" % (a.num,)) if a.num is not None else None)
             if f.id in ("isnumber", "isarray", "isstr", "type", "isnone", "isinstance"):
                 return BOOL
             if f.id in EXC_NAMES:
@@ -248,12 +284,12 @@ class Interp:
                 if f.attr == "convert":
                     t = args[0] if args else UNK
                     if t.kind == "SYS":
-                        return V("Q", t.sys, recv.dim, recv.cls)
+                        return V("Q", t.sys, recv.dim, recv.cls, num=recv.num)
                     if t.kind == "U":
                         if not cx.dimeq(t.dim, recv.dim):
                             cx.problems.append((n.lineno, "conversion to units of a different dimension"))
-                        return V("Q", t.sys, recv.dim, recv.cls)
-                    return V("Q", None, recv.dim, recv.cls)
+                        return V("Q", t.sys, recv.dim, recv.cls, num=recv.num)
+                    return V("Q", None, recv.dim, recv.cls, num=recv.num)
                 if f.attr == "copy":
                     return recv
                 return self.call_method(recv, f.attr, args, cx)
